@@ -52,6 +52,22 @@ CHECKS = {
              text='Every possible library return code other than the success constant takes one CFG edge; on that edge the function returns -EEAV_IDN_ERROR with *r holding the code, calls none of the domain checks, and releases the output buffer iff non-NULL exactly once (all paths: NULL-initialised, no use after free); callers set is_domain only for rc >= 0 and take the message from result->idn_rc with the backend strerror; the next call resets it (C13).',
              note='What the IDN library itself allocates or leaks is outside the repository. Trusts clang-14 AST and lib/cfgpaths.py; idn/idnkit parsed against stubs.',
              ref='DESIGN.md section 3 / C19'),
+ 'C07': dict(level='other', technique='table invariants over all rows + lookup-shape rule + call-sequence path rules on three check_tld expansions and three is_utf8_domain copies',
+             text='Necessary structural conditions, each mapping to a mis-classification when broken: every row has length = strlen + 1 (whole-label match), lower-case LDH unique domain and an assignable class; is_tld is a first-match scan with strncasecmp over row.length returning row.type; every caller tests reserved domains first, takes the bytes after the LAST dot (strrchr), reports NOT_FQDN when there is none and hands the is_tld result on unchanged; in mode 6531 all of that runs on the converter output.',
+             note='The table content is tied to the shipped CSV by C11. Assumes the domain ends at the terminator. Does not decide the IDN library output (C10).',
+             ref='DESIGN.md section 3 / C07'),
+ 'C09': dict(level='other', technique='table rules + path rules on is_special_domain: which label each verdict rests on (def-use from the last-label pointer), soundness of every length short-cut for the table it guards, navigation-loop shape evaluated at its boundary values',
+             text='Structural part only (the function navigates with strchr, outside the scanner subset): reserved[]/example[] contents and lengths; dot counting, root-dot discount and skip loop (continue at 2, stop at 1); on every one of ~2200 paths a NO verdict for a multi-label domain must rest on the last label (compared with reserved[] or left through a short-cut that admits no reserved length) and a YES verdict must follow a whole-label match of the right label against the right table.',
+             note='Not decided: the full label-sequence language. Buffer bounds are C06.',
+             ref='DESIGN.md section 3 / C09'),
+ 'C10': dict(level='other', technique='pipeline-trace equality between the ASCII host-name branch and is_utf8_domain after conversion (3 backends)',
+             text='Only the repository\'s side: after a successful conversion every backend applies to the converter output the same calls in the same order with the same verdict mapping as the ASCII modes apply to their input, and adds only DOMAIN_EMPTY / IDN_ERROR. The behavioural core - that the IDN library maps U-label and A-label spellings to the same A-label and rejects IDNA2008 violations - is a fact about the library binary and is NOT decided by anything in /verif.',
+             note='Carried as assumptions: converter idempotent on LDH ASCII; U- and A-label of a valid domain convert to the same A-label.',
+             ref='DESIGN.md section 3 / C10'),
+ 'C14': dict(level='other', technique='LLVM-IR effect facts: global definitions and mutability, base object of every store and callee write, external callee allow-list',
+             text='With no mutable global, static or thread-local object defined in any library unit (all three backends), every store and every write made through a callee landing in a local, in the function\'s own allocation or behind a non-const pointer parameter, and only re-entrant externals called, two threads using their own eav_t / result / decoder objects touch disjoint memory: there is nothing to race on under any schedule.',
+             note='Thread-safety of libc and the IDN libraries is assumed as documented. Flow-insensitive base-object resolution over -O0 IR; an unattributable store is reported, not ignored.',
+             ref='DESIGN.md section 3 / C14'),
 }
 
 NOT_YET = {}
